@@ -13,7 +13,7 @@ From V Require Import Model.Expr Model.SqlExpr
                       Proofs.ParserProofs Proofs.ParserProofs2 Proofs.LexerProofs
                       Proofs.ParserProofsCanon Proofs.ParserProofsFuel Proofs.ParserProofsX Proofs.ParserProofsConv
                       Model.ParserShow Proofs.ParserProofsShow Proofs.ParserProofsShow2 Proofs.ParserProofsShow3
-                      Model.ConvPrims Gen.ConvGen Model.ConvVisit Proofs.ConvProofs Proofs.LexerProofsWs.
+                      Model.ConvPrims Gen.ConvGen Model.ConvVisit Proofs.ConvProofs Proofs.ConvProofsRej Proofs.LexerProofsWs.
 Import ListNotations.
 Close Scope Z_scope.   (* opened by Model/Expr.v *)
 Open Scope string_scope.
@@ -579,6 +579,42 @@ Example gen_visit_rejects :
   gen_accepts res_ex bound_ex (fun _ => 0%Z) (Unary UPlus (Str "a")) = Some false.
 Proof. vm_compute. repeat split; reflexivity. Qed.
 
+
+(* ---- the refusing direction.  supported res bound t: no POINT node, no identifier that resolves outside C05's column types
+   (region, uuid, ingest_date: ROther), IN items of the shapes the grammar builds (literal | identifier | bind name, not .begin/.end).
+   On such trees of_tree never says "unsupported", the regenerated visitor never crashes, and it agrees with the hand model in BOTH
+   directions: where of_tree converts it returns rep e, where of_tree says InvalidQueryError it raises InvalidQueryError or
+   returns a _RangeLiteral / _Sequence (which every consumer and the top level refuse). *)
+Theorem gen_visit_total : forall res bound tns, (forall n b, res n <> Some (RLit (VBool b))) ->
+  forall t, supported res bound t = true ->
+  match of_tree res bound tns t with
+  | TConv e => visit res bound tns t = rep e
+  | TRej => refusing (visit res bound tns t)
+  | TUnsup => False
+  end.
+Proof. exact visit_total_p. Qed.
+Print Assumptions gen_visit_total.
+
+Theorem gen_rejects : forall res bound tns, (forall n b, res n <> Some (RLit (VBool b))) ->
+  forall t, supported res bound t = true -> of_tree res bound tns t = TRej -> gen_accepts res bound tns t = Some false.
+Proof. exact gen_rejects_p. Qed.
+Print Assumptions gen_rejects.
+
+Theorem gen_verdict_total : forall res bound tns, (forall n b, res n <> Some (RLit (VBool b))) ->
+  forall t, supported res bound t = true -> (forall e, of_tree res bound tns t = TConv e -> has_span_eq e = false) ->
+  tree_verdict res bound tns t = match gen_accepts res bound tns t with Some true => Accept | _ => Reject end.
+Proof. exact gen_verdict_total_p. Qed.
+Print Assumptions gen_verdict_total.
+
+Example gen_rejects_example :
+  let t1 := Binary (Ident "detector") BEq (Bind "ids") in            (* a bound list outside IN *)
+  let t2 := IsIn (Ident "detector") [Num "1"; Ident "nosuch"] false in (* unresolvable item *)
+  let t3 := Tuple (Num "1") (Ident "null") in                         (* tuple bound that is not a time *)
+  supported res_ex bound_ex t1 = true /\ of_tree res_ex bound_ex (fun _ => 0%Z) t1 = TRej /\ gen_accepts res_ex bound_ex (fun _ => 0%Z) t1 = Some false /\
+  supported res_ex bound_ex t2 = true /\ of_tree res_ex bound_ex (fun _ => 0%Z) t2 = TRej /\ gen_accepts res_ex bound_ex (fun _ => 0%Z) t2 = Some false /\
+  supported res_ex bound_ex t3 = true /\ of_tree res_ex bound_ex (fun _ => 0%Z) t3 = TRej /\ gen_accepts res_ex bound_ex (fun _ => 0%Z) t3 = Some false /\
+  supported res_ex bound_ex (Binary (Ident "visit.region") BOverlaps (Point (Num "1") (Num "2"))) = false.
+Proof. vm_compute. repeat split; reflexivity. Qed.
 
 (* ===================================================================== wave 6: insignificant whitespace, as a theorem over the lexer.
    chunk c t: the text c is read as exactly the token t whenever blanks (space, tab, newline) or the end of the input follow
